@@ -219,10 +219,12 @@ TRANS_VARIANTS = [['add_topnode', 'negra_mark_heads'], ['negra_mark_heads', 'bin
                   ['root_attach', 'negra_mark_heads', 'boyd_split', 'raising'], ['punctuation_root', 'add_topnode', 'root_attach']]
 
 
-def check_cli_trans(fmt, size, spec, trans):
-    """The parts taken in order must reproduce the UNSPLIT output of the same command line."""
+def check_cli_trans(fmt, size, spec, trans, src_variant=None):
+    """The parts taken in order must reproduce the UNSPLIT output of the same command line.
+    src_variant 'tiger-nontree': TIGER-XML source whose second sentence is not a tree (an unattached extra
+    terminal); whatever the reader makes of it, split and unsplit runs must agree."""
     mts = bank(size)
-    case = {'cli': True, 'trans': trans, 'fmt': fmt, 'size': size, 'spec': spec}
+    case = {'cli': True, 'trans': trans, 'fmt': fmt, 'size': size, 'spec': spec, 'src_variant': src_variant}
     out = []
 
     def bad(kind, detail):
@@ -231,19 +233,40 @@ def check_cli_trans(fmt, size, spec, trans):
                     'what': '--split with transformations: ' + kind})
     d = scratch()
     src = os.path.join(d, 'c17t.export')
-    with open(src, 'w', encoding='utf-8') as f:
+    src_fmt = 'export'
+    if src_variant == 'tiger-nontree':
+        src_fmt = 'tigerxml'
+        text = codecs.encode_tigerxml(mts)
+        cut = text.find('<terminals>', text.find('<terminals>') + 1)
+        if cut < 0:
+            return out
+        cut += len('<terminals>')
+        text = text[:cut] + '<t id="stray_99" word="stray" pos="X" morph="--" lemma="--"/>' + text[cut:]
+        with open(src, 'w', encoding='utf-8') as f:
+            f.write(text)
+    else:
+      with open(src, 'w', encoding='utf-8') as f:
         f.write(codecs.encode_export(mts))
     whole = os.path.join(d, 'c17t.whole')
     dest = os.path.join(d, 'c17t.out')
     for old in glob.glob(dest + '*'):
         os.unlink(old)
-    base = ['--src-format', 'export', '--dest-format', fmt, '--trans'] + trans
+    base = ['--src-format', src_fmt, '--dest-format', fmt, '--trans'] + trans
+    if src_variant:
+        base += ['--src-opts', 'quiet']
     st0, _, _, exc0 = cli.run(['transform', src, whole] + base)
     st1, _, _, exc1 = cli.run(['transform', src, dest] + base + ['--split', spec])
-    exp_parts = ref_split(spec, size)
     if st0 != 0:
         bad('cli-failed', 'unsplit run: exit status %r %s' % (st0, cli.describe(exc0)))
         return out
+    ntrees = size
+    if src_variant:
+        try:
+            ntrees = len(decode_part(fmt, open(whole, encoding='utf-8').read()))     # as many as the unsplit run wrote
+        except (codecs.DecodeError, IOError) as e:
+            bad('part-not-a-document', 'unsplit output: %s' % e)
+            return out
+    exp_parts = ref_split(spec, ntrees)
     if exp_parts is None:
         if st1 == 0:
             bad('not-rejected', 'specification accepted')
@@ -276,7 +299,7 @@ def check_case(case):
     with quiet():
         if case.get('cli'):
             if case.get('trans'):
-                return check_cli_trans(case['fmt'], case['size'], case['spec'], case['trans'])
+                return check_cli_trans(case['fmt'], case['size'], case['spec'], case['trans'], case.get('src_variant'))
             return check_cli(case['fmt'], case['size'], case['spec'], case['filter'], case.get('src_fmt', 'export'),
                              tuple(case['encs']) if case.get('encs') else None)[0]
         return check_spec(case['spec'], case['size'])[0]
@@ -335,6 +358,10 @@ def run_chunk(chunk):
                     for spec2 in ('1#_rest', 'rest_1#', '50%_50%', '1#_1#_rest'):
                         take(check_cli_trans(chunk['fmt'], chunk['size'], spec2, trans), True,
                              (chunk['fmt'], chunk['size'], spec2, tuple(trans)))
+            if chunk['size'] >= 3 and chunk['fmt'] in ('export', 'discobrackets'):
+                for spec2 in ('1#_rest', '50%_50%', '1#_1#_rest'):
+                    take(check_cli_trans(chunk['fmt'], chunk['size'], spec2, TRANS_VARIANTS[0], 'tiger-nontree'), True,
+                         (chunk['fmt'], chunk['size'], spec2, 'tiger-nontree'))
             res.sample({'cli': 'treetools transform SRC DEST --dest-format %s --split %s' % (chunk['fmt'], spec),
                         'treebank_size': chunk['size']})
     return res
